@@ -565,7 +565,14 @@ fn run_message(ctx: &mut Ctx) {
 }
 
 pub fn run(ctx: &mut Ctx) {
-    run_v2(ctx);
-    run_v1(ctx);
-    run_message(ctx);
+    // thorough: the whole sweep is repeated with fresh keys, salts, plaintexts and mutation choices
+    let rounds = ctx.pick(1u64, 24u64);
+    let base = ctx.seed;
+    for r in 0..rounds {
+        ctx.seed = base.wrapping_add(r.wrapping_mul(0x9E37_79B9_7F4A_7C15));
+        run_v2(ctx);
+        run_v1(ctx);
+        run_message(ctx);
+    }
+    ctx.seed = base;
 }
